@@ -56,7 +56,7 @@ def model_check(rep, prop, tier, scratch):
     if tier == 'quick':
         cfgs = [('q', (['a', 'b', 'c'], ['T1', 'T2', 'T3'], 3, 3))]
     else:
-        cfgs = [('t3', (['a', 'b', 'c'], ['T1', 'T2', 'T3', 'T4'], 4, 3)),
+        cfgs = [('t3', (['a', 'b', 'c'], ['T1', 'T2', 'T3', 'T4'], 3, 3)),
                 ('t4', (['a', 'b', 'c', 'd'], ['T2', 'T3'], 3, 4))]
     for name, args in cfgs:
         cfgname = 'MC_Store_%s_%s' % (prop, name)
